@@ -382,8 +382,6 @@ ITEMS = location_types() + budget_types() + error_types() + [
              dict(after='}, _ => {} } }, _ => {} } }', label='budget_after_observe', text='''
                  if self.budget is Some { let b = self.budget.unwrap(); assert(within(b.abs(), b.budget, b.per_doc())); lemma_budget_ok_intro(b); }'''),
              dict(after='self.observe_budget_for_replay(&ev)?;', text='if self.budget is Some { lemma_budget_ok_intro(self.budget.unwrap()); }'),
-             dict(after='self.reset_document_state();', nth=1, text='lemma_frames_empty(self.rec_stack@);'),
-             dict(after='self.reset_document_state();', nth=2, text='lemma_frames_empty(self.rec_stack@);'),
              # scalar arm: the delivered event is the raw scalar (text, anchor id, and style)
              dict(after='Event::Scalar(val, mut style, anchor_id, tag) => {', ghost=True, text='let ghost val0 = val; let ghost style0 = style;'),
              dict(before='self.record(&ev, false, false);', nth=1, label='C02:scalar_delivered_as_parsed_up_to_the_documented_special_case', props=['C02', 'C06'],
@@ -418,6 +416,8 @@ ITEMS = location_types() + budget_types() + error_types() + [
                  lemma_frames_all_pushed(f0, f2, ev); lemma_frames_facts(f2);'''),
              dict(before='self.last_location = location;', nth=5, text='lemma_frames_remaining(f2, self.rec_stack@);'),
              # document boundaries: per-document state is cleared at EVERY document start and end (C11)
+             dict(before='self.last_location = location;', nth=7, text='if self.rec_stack@.len() == 0 { lemma_frames_empty(self.rec_stack@); }'),
+             dict(before='self.last_location = location;', nth=8, text='if self.rec_stack@.len() == 0 { lemma_frames_empty(self.rec_stack@); }'),
              dict(before='self.last_location = location;', nth=7, label='C11:document_start_clears_per_document_state', props=['C11', 'C02'],
                   text='''assert(self.inject@.len() == 0 && self.rec_stack@.len() == 0 && self.total_replayed_events == 0 && !self.seen_doc_end
                         && (forall|j: int| 0 <= j < self.anchors@.len() ==> (#[trigger] self.anchors@[j]) is None)
